@@ -160,6 +160,63 @@ static int replay_mss()
 	return bad ? 3 : 0;
 }
 
+// [C06.reader]: a read is pending; the network swaps the first two payload segments, so the missing one arrives
+// last and incoming_packet() delivers both in one step (reorder-buffer drain); the reader must be woken.
+struct swap_sink : sink
+{
+	bool have = false; aux::packet held; int seen = 0;
+	void incoming_packet(aux::packet p) override
+	{
+		if (p.type == aux::packet::type_t::payload && seen < 2)
+		{
+			++seen;
+			if (seen == 1) { held = std::move(p); have = true; return; }
+			forward_packet(std::move(p));
+			if (have) { have = false; forward_packet(std::move(held)); }
+			return;
+		}
+		forward_packet(std::move(p));
+	}
+	std::string label() const override { return "swap"; }
+};
+struct swap_config : default_config
+{
+	std::shared_ptr<swap_sink> sw = std::make_shared<swap_sink>();
+	route channel_route(asio::ip::address a, asio::ip::address b) override { route r = default_config::channel_route(a, b); r.append(std::static_pointer_cast<sink>(sw)); return r; }
+	int path_mtu(asio::ip::address, asio::ip::address) override { return 100; }
+};
+static int replay_reader()
+{
+	swap_config cfg;
+	simulation sim(cfg);
+	asio::io_context srv(sim, asio::ip::make_address_v4("50.0.0.1")), cli(sim, asio::ip::make_address_v4("50.0.0.2"));
+	asio::ip::tcp::acceptor acc(srv);
+	acc.open(asio::ip::tcp::v4());
+	acc.bind(asio::ip::tcp::endpoint(asio::ip::address_v4::any(), 4000));
+	acc.listen(10);
+	asio::ip::tcp::socket s1(srv), c(cli);
+	std::vector<char> rbuf(10000), data(200, 'd');
+	int reads = 0; std::size_t got = 0;
+	asio::high_resolution_timer t(srv);
+	acc.async_accept(s1, [&](boost::system::error_code const& e) {
+		if (e) return;
+		// give the client time to start its read, then send two 100-byte segments
+		t.expires_after(ch::seconds(1));
+		t.async_wait([&](boost::system::error_code const&) { s1.async_write_some(asio::buffer(data), [](boost::system::error_code const&, std::size_t) {}); });
+	});
+	c.async_connect(asio::ip::tcp::endpoint(asio::ip::make_address_v4("50.0.0.1"), 4000), [&](boost::system::error_code const& e) {
+		if (e) return;
+		c.async_read_some(asio::buffer(rbuf), [&](boost::system::error_code const&, std::size_t n) { ++reads; got += n; });
+	});
+	sim.run();
+	if (reads == 0 && c.m_recv_handler && !c.m_incoming_queue.empty())
+	{
+		std::printf("[C06.reader] a read is pending and %zu in-order segments are queued (the first two segments arrived swapped), but the reader was never woken: the simulation went quiescent\n", c.m_incoming_queue.size());
+		return 3;
+	}
+	return reads == 1 ? 0 : 4;
+}
+
 int main(int argc, char** argv)
 {
 	if (argc < 3) return 4;
@@ -168,5 +225,6 @@ int main(int argc, char** argv)
 	if (label.find("C06.flight") != std::string::npos) return replay_flight();
 	if (label.find("C05.fresh") != std::string::npos) return replay_fresh();
 	if (label.find("C20.mss") != std::string::npos) return replay_mss();
+	if (label.find("C06.reader") != std::string::npos) return replay_reader();
 	return 4;
 }
